@@ -186,12 +186,36 @@ def compare_units(a, b):
 
 
 # ---------------------------------------------------------------------------
-def _verdict(ctx, d, text, where, key):
-    """a proved difference is a violation; bookkeeping the engine could not relate is an analysis error"""
-    if d is not None and d.get("undecided"):
-        ctx.error(text + " -- not decided: the two sides keep different integer bookkeeping that could not be related", where, d)
+def _verdict(ctx, d, text, where, key, wit):
+    """the comparison proves equality when it succeeds.  When it does not, the two sides may differ or the engine may just be unable to relate
+    two spellings (other cut points, bookkeeping no derived change of variables relates, a test made at another place): a VIOLATION is
+    reported only with a witness - an input of the finite world of c05_world on which the two lowered programs hand back different tables;
+    without one the comparison is undecided (an analysis error)"""
+    if d is None:
+        ctx.ok(text, where)
+        return
+    w = wit()
+    if w is not None:
+        ctx.fail(text, where, {"difference": d, "witness": w}, key=key)
     else:
-        ctx.check(d is None, text, where, d, key=key)
+        ctx.error(text + " -- not decided: the engine could not relate the two transition systems, and no input of its finite world "
+                         "(lengths 2..6, ties, NaN) makes them return different tables", where, d)
+
+
+def _witness_fn(ctx, a, b, ka, kb, only=None):
+    """lazily computed (once per pair) witness of a difference between two implementations, on their un-normalised systems"""
+    from . import c05_world as W
+    box = []
+    cache = ctx.__dict__.setdefault("_c05world", {})
+
+    def wit():
+        if not box:
+            try:
+                box.append(W.witness(a["raw"], b["raw"], only=only, cache=cache, ka=ka, kb=kb))
+            except Unsupported:
+                box.append(None)
+        return box[0]
+    return wit
 
 
 def r1_equivalence(ctx):
@@ -199,11 +223,12 @@ def r1_equivalence(ctx):
     for cn, pn in (("rainflow1", "_rainflow1"), ("rainflow2", "_rainflow2")):
         a, b = impl[("C", cn)], impl[("py", pn)]
         res, mp = compare_units(a["norm"], b["norm"])
+        wit = _witness_fn(ctx, a, b, ("C", cn), ("py", pn))
         for n in SHAPE[:-1]:
             d = res[n]
             _verdict(ctx, d, f"c_rain.{cn} == py_rain.{pn} [{UNIT_NAMES[n]}]: under jointly satisfiable conditions both make the same move with the same "
                              "effect on the reversal stack, the counters and the output rows (exact floating-point expression trees, counters up to "
-                             "the change of variables derived from each program)", f"{a['where']} vs {ctx._where(b['where'])}", f"C05-R1|{cn}|{n}")
+                             "the change of variables derived from each program)", f"{a['where']} vs {ctx._where(b['where'])}", f"C05-R1|{cn}|{n}", wit)
 
 
 def r2_erasure(ctx):
@@ -212,9 +237,10 @@ def r2_erasure(ctx):
         a, b = impl[(side, n1)], impl[(side, n2)]
         erased = Y.normalise(Y.drop_arrays(b["raw"], ("cycle_index", "os")))
         res, mp = compare_units(a["norm"], erased)
+        wit = _witness_fn(ctx, a, b, (side, n1), (side, n2), only=("rf",))
         for n in SHAPE[:-1]:
             _verdict(ctx, res[n], f"{side} {n1} == {n2} with the offset bookkeeping erased [{UNIT_NAMES[n].split(':')[0]}]: same values, counts and stack moves",
-                     b["where"], f"C05-R2|{side}|{n}")
+                     b["where"], f"C05-R2|{side}|{n}", wit)
 
 
 def r3_astm(ctx, astm_reference):
@@ -225,9 +251,10 @@ def r3_astm(ctx, astm_reference):
             refs[a["offsets"]] = reference(a["offsets"], astm_reference)
         ref = refs[a["offsets"]]
         res, mp = compare_units(ref["norm"], a["norm"])
+        wit = _witness_fn(ctx, ref, a, ("ref", a["offsets"]), (side, nm))
         for n in SHAPE[:-1]:
             _verdict(ctx, res[n], f"{side} {nm} [{UNIT_NAMES[n].split(':')[0]}]: equals the ASTM E1049-85 5.4.4 steps 1-6 automaton - same decisions (fewer than "
-                                  "three points, X < Y, Y contains the starting point) and the same effect on every path", a["where"], f"C05-R3|{side} {nm}|{n}")
+                                  "three points, X < Y, Y contains the starting point) and the same effect on every path", a["where"], f"C05-R3|{side} {nm}|{n}", wit)
 
 
 # ---------------------------------------------------------------------------
